@@ -446,3 +446,166 @@ Qed.
 Theorem cdec_budget_enough : forall pol neg t bs budget, wfz t = true -> len bs < budget ->
   fst (cdec pol neg t bs budget) <> CBudget.
 Proof. intros pol neg t bs budget Hwf Hlt. apply cdec_no_budget; [exact Hwf|lia]. Qed.
+
+(* ---------- 2. allocation ---------- *)
+
+(* Every consumed byte pays for K/4 bytes of allocation (K = 4 + G: the byte itself, and a
+   quarter of a gate of at most G bytes, a gate having read its 4-byte count); the only
+   allocation not paid for is that of the one string whose body could not be read. *)
+Definition apaid (K : N) (bs : bytes) (rc : cres unit * cost) : Prop :=
+  match fst rc with
+  | COk _ rest => 4 * alloc (snd rc) + K * len rest <= K * len bs
+  | _ => 4 * alloc (snd rc) <= K * len bs + 4 * MaxStringSize
+  end.
+
+Lemma paid_apaid G mw bs rc : paid mw bs rc -> apaid (4 + G) bs rc.
+Proof.
+  unfold paid, apaid. intros [_ H]. destruct (fst rc) as [u rest| | |]; try lia.
+  assert (H1 : (4 + G) * (alloc (snd rc) + len rest) <= (4 + G) * len bs) by (apply N.mul_le_mono_l; lia).
+  lia.
+Qed.
+
+Lemma cloop_apaid K (p : bytes -> N -> cres unit * cost) :
+  (forall b bud, apaid K b (p b bud)) ->
+  forall fuel n bs budget acc,
+    match fst (cloop p fuel n bs budget acc) with
+    | COk _ rest => 4 * alloc (snd (cloop p fuel n bs budget acc)) + K * len rest <= 4 * alloc acc + K * len bs
+    | _ => 4 * alloc (snd (cloop p fuel n bs budget acc)) <= 4 * alloc acc + K * len bs + 4 * MaxStringSize
+    end.
+Proof.
+  intros Hp fuel. induction fuel as [|f IH]; intros n bs budget acc; cbn [cloop].
+  - destruct (n =? 0); [cbn [fst snd]; lia|]. destruct (budget =? 0); cbn [fst snd]; lia.
+  - destruct (n =? 0); [cbn [fst snd]; lia|]. destruct (budget =? 0); [cbn [fst snd]; lia|].
+    pose proof (Hp bs (budget - 1)) as Hp1. unfold apaid in Hp1.
+    destruct (p bs (budget - 1)) as [r c]. cbn [fst snd] in Hp1.
+    destruct r as [u rest| | |]; cbn [fst snd cadd alloc]; try lia.
+    match goal with |- context [cloop p f ?n' rest ?b' ?a'] => specialize (IH n' rest b' a') end.
+    destruct (fst (cloop p f (n - 1) rest (budget - 1 - iters c)
+                     (cadd acc (cadd c {| alloc := 0; iters := 1 |})))) as [u' rest'| | |];
+      cbn [cadd alloc] in IH; lia.
+Qed.
+
+Lemma cpair_apaid pol neg tk tv K :
+  (forall b bud, apaid K b (cdec pol neg tk b bud)) ->
+  (forall b bud, apaid K b (cdec pol neg tv b bud)) ->
+  forall b bud, apaid K b (cpair pol neg tk tv b bud).
+Proof.
+  intros Hk Hv b bud. unfold cpair.
+  pose proof (Hk b bud) as Hk1. unfold apaid in Hk1. destruct (cdec pol neg tk b bud) as [r1 c1].
+  cbn [fst snd] in Hk1. destruct r1 as [u b'| | |]; try exact Hk1.
+  pose proof (Hv b' (bud - iters c1)) as Hv1. unfold apaid in Hv1.
+  destruct (cdec pol neg tv b' (bud - iters c1)) as [r2 c2]. cbn [fst snd] in Hv1.
+  unfold apaid. cbn [fst snd cadd alloc]. destruct r2 as [u' rest| | |]; lia.
+Qed.
+
+Lemma cgo_apaid pol neg K ts :
+  Forall (fun t => forall bs budget, apaid K bs (cdec pol neg t bs budget)) ts ->
+  forall b bud acc,
+    match fst (cgo pol neg ts b bud acc) with
+    | COk _ rest => 4 * alloc (snd (cgo pol neg ts b bud acc)) + K * len rest <= 4 * alloc acc + K * len b
+    | _ => 4 * alloc (snd (cgo pol neg ts b bud acc)) <= 4 * alloc acc + K * len b + 4 * MaxStringSize
+    end.
+Proof.
+  intro HF. induction HF as [|t' l Ht HF IH]; intros b bud acc; cbn [cgo].
+  - cbn [fst snd]. lia.
+  - pose proof (Ht b bud) as Ht1. unfold apaid in Ht1. destruct (cdec pol neg t' b bud) as [r c].
+    cbn [fst snd] in Ht1. destruct r as [u b'| | |]; cbn [fst snd cadd alloc]; try lia.
+    specialize (IH b' (bud - iters c) (cadd acc c)).
+    destruct (fst (cgo pol neg l b' (bud - iters c) (cadd acc c))) as [u' rest| | |];
+      cbn [cadd alloc] in IH; lia.
+Qed.
+
+(* what a gate may allocate *)
+Lemma count_gate_bound pol n esz G a :
+  pol <> PGen -> (pol = PRefl -> listValueMaxSize * esz <= G) -> count_gate pol n esz = Some a -> a <= G.
+Proof.
+  intros Hpol HG Hc. unfold count_gate in Hc. destruct pol; [congruence| |inversion Hc; lia].
+  specialize (HG eq_refl).
+  destruct (2 ^ 31 <=? n); [discriminate|]. destruct (listValueMaxSize <? n) eqn:Hmax; [discriminate|].
+  inversion Hc as [Ha]. apply N.ltb_ge in Hmax.
+  eapply N.le_trans; [apply N.mul_le_mono_r; exact Hmax|exact HG].
+Qed.
+
+Lemma max_esz_fold ts t :
+  In t ts -> max_esz t <= fold_right (fun t a => N.max (max_esz t) a) 0 ts.
+Proof.
+  induction ts as [|x l IH]; intro Hin; [destruct Hin|].
+  cbn [fold_right]. destruct Hin as [Hx|Hin]; [subst x; lia|]. specialize (IH Hin). lia.
+Qed.
+
+Lemma cdec_apaid pol neg G t :
+  pol <> PGen -> (pol = PRefl -> listValueMaxSize * max_esz t <= G) ->
+  forall bs budget, apaid (4 + G) bs (cdec pol neg t bs budget).
+Proof.
+  intro Hpol. induction t as [s|t' IH|tk tv IHk IHv|ts IH|name fs IH] using ty_ind2; intros HG bs budget.
+  - eapply paid_apaid. apply cdec_scalar.
+  - assert (HG' : pol = PRefl -> listValueMaxSize * max_esz t' <= G).
+    { intro E. specialize (HG E). cbn [max_esz] in HG. unfold listValueMaxSize in *. lia. }
+    assert (HGe : pol = PRefl -> listValueMaxSize * elem_size t' <= G).
+    { intro E. specialize (HG E). cbn [max_esz] in HG. unfold listValueMaxSize in *. lia. }
+    rewrite cdec_list. unfold apaid.
+    destruct (cnum_spec 4 bs) as [He|[n [r [He Hl]]]]; rewrite He; [cbn [fst snd czero alloc]; lia|].
+    destruct (count_gate pol n (elem_size t')) as [a|] eqn:Hc.
+    + pose proof (count_gate_bound pol n _ G a Hpol HGe Hc) as Ha.
+      pose proof (cloop_apaid (4 + G) (cdec pol neg t') (IH HG')
+                    (cfuel r n) n r budget {| alloc := a; iters := 0 |}) as Hloop.
+      rewrite <- Hl.
+      destruct (fst (cloop (cdec pol neg t') (cfuel r n) n r budget {| alloc := a; iters := 0 |}))
+        as [u rest| | |]; cbn [alloc] in Hloop; lia.
+    + destruct (gate_fail_cases pol neg n) as [Hg|Hg]; rewrite Hg; cbn [fst snd czero alloc]; lia.
+  - assert (HGk : pol = PRefl -> listValueMaxSize * max_esz tk <= G).
+    { intro E. specialize (HG E). cbn [max_esz] in HG. unfold listValueMaxSize in *. lia. }
+    assert (HGv : pol = PRefl -> listValueMaxSize * max_esz tv <= G).
+    { intro E. specialize (HG E). cbn [max_esz] in HG. unfold listValueMaxSize in *. lia. }
+    assert (HGe : pol = PRefl -> listValueMaxSize * (elem_size tk + elem_size tv + 8) <= G).
+    { intro E. specialize (HG E). cbn [max_esz] in HG. unfold listValueMaxSize in *. lia. }
+    rewrite cdec_map. unfold apaid.
+    destruct (cnum_spec 4 bs) as [He|[n [r [He Hl]]]]; rewrite He; [cbn [fst snd czero alloc]; lia|].
+    destruct (match pol with PRefl => 2 ^ 31 <=? n | _ => false end);
+      [cbn [fst snd czero alloc]; rewrite <- Hl; lia|].
+    destruct (count_gate pol n (elem_size tk + elem_size tv + 8)) as [a|] eqn:Hc.
+    + pose proof (count_gate_bound pol n _ G a Hpol HGe Hc) as Ha.
+      pose proof (cloop_apaid (4 + G) (cpair pol neg tk tv)
+                    (cpair_apaid pol neg tk tv _ (IHk HGk) (IHv HGv))
+                    (cfuel r n) n r budget {| alloc := a; iters := 0 |}) as Hloop.
+      rewrite <- Hl.
+      destruct (fst (cloop (cpair pol neg tk tv) (cfuel r n) n r budget {| alloc := a; iters := 0 |}))
+        as [u rest| | |]; cbn [alloc] in Hloop; lia.
+    + destruct (gate_fail_cases pol neg n) as [Hg|Hg]; rewrite Hg; cbn [fst snd czero alloc]; lia.
+  - rewrite cdec_tuple. unfold apaid.
+    assert (HF : Forall (fun t => forall bs budget, apaid (4 + G) bs (cdec pol neg t bs budget)) ts).
+    { rewrite Forall_forall in IH. apply Forall_forall. intros t Hin. apply (IH t Hin).
+      intro E. specialize (HG E). cbn [max_esz] in HG. pose proof (max_esz_fold ts t Hin) as Hm.
+      unfold listValueMaxSize in *. lia. }
+    pose proof (cgo_apaid pol neg (4 + G) ts HF bs budget czero) as Hgo.
+    destruct (fst (cgo pol neg ts bs budget czero)) as [u rest| | |]; cbn [czero alloc] in Hgo; lia.
+  - rewrite cdec_struct. unfold apaid.
+    assert (HF : Forall (fun t => forall bs budget, apaid (4 + G) bs (cdec pol neg t bs budget)) (map snd fs)).
+    { apply Forall_map. rewrite Forall_forall in IH. apply Forall_forall. intros f Hin. apply (IH f Hin).
+      intro E. specialize (HG E). cbn [max_esz] in HG.
+      rewrite <- (fold_right_map_snd max_esz N.max 0 fs) in HG.
+      pose proof (max_esz_fold (map snd fs) (snd f) (in_map snd fs f Hin)) as Hm.
+      unfold listValueMaxSize in *. lia. }
+    pose proof (cgo_apaid pol neg (4 + G) (map snd fs) HF bs budget czero) as Hgo.
+    destruct (fst (cgo pol neg (map snd fs) bs budget czero)) as [u rest| | |]; cbn [czero alloc] in Hgo; lia.
+Qed.
+
+Theorem cdec_alloc_sig : forall neg t bs budget,
+  alloc (snd (cdec PSig neg t bs budget)) <= len bs + MaxStringSize.
+Proof.
+  intros neg t bs budget.
+  pose proof (cdec_apaid PSig neg 0 t ltac:(discriminate) ltac:(discriminate) bs budget) as H.
+  unfold apaid in H. destruct (fst (cdec PSig neg t bs budget)) as [u rest| | |]; lia.
+Qed.
+
+Theorem cdec_alloc_refl : forall neg t bs budget,
+  alloc (snd (cdec PRefl neg t bs budget))
+  <= len bs + MaxStringSize + (len bs / 4 + 1) * (listValueMaxSize * max_esz t).
+Proof.
+  intros neg t bs budget. set (G := listValueMaxSize * max_esz t).
+  pose proof (cdec_apaid PRefl neg G t ltac:(discriminate) (fun _ => N.le_refl _) bs budget) as H.
+  assert (Hq : G * len bs <= G * (4 * (len bs / 4 + 1))).
+  { apply N.mul_le_mono_l. pose proof (N.div_mod (len bs) 4 ltac:(discriminate)) as Hdm.
+    pose proof (N.mod_lt (len bs) 4 ltac:(discriminate)) as Hm. lia. }
+  unfold apaid in H. destruct (fst (cdec PRefl neg t bs budget)) as [u rest| | |]; lia.
+Qed.
